@@ -251,14 +251,19 @@ def rule_coverage(program, ctx):
     # per-filter verdict:  S and all(S)   (as an `if …: return True` or as the returned expression)
     sets = {s_.targets[0].id for s_ in ast.walk(scope) if isinstance(s_, ast.Assign) and isinstance(s_.targets[0], ast.Name) and isinstance(s_.value, ast.Call) and call_name(s_.value) == "set" and not s_.value.args}
     verdict_ok = False
+    from ..lib import guard_atoms
     for n in ast.walk(scope):
-        e = None
-        if isinstance(n, ast.If) and any(isinstance(r, ast.Return) and isinstance(r.value, ast.Constant) and r.value.value is True for r in n.body):
-            e = n.test
+        txts = None
+        if isinstance(n, ast.Return) and isinstance(n.value, ast.Constant) and n.value.value is True:
+            # the conditions under which `return True` is reached inside the per-filter scope
+            at = guard_atoms(n, stop=scope)
+            if all(pol for _, pol in at):
+                txts = {ast.unparse(e) for e, _ in at}
         elif isinstance(n, ast.Return) and n.value is not None and not isinstance(n.value, ast.Constant) and loop is None:
             e = n.value
-        if isinstance(e, ast.BoolOp) and isinstance(e.op, ast.And) and len(e.values) == 2:
-            txts = {ast.unparse(v) for v in e.values}
+            if isinstance(e, ast.BoolOp) and isinstance(e.op, ast.And):
+                txts = {ast.unparse(v) for v in e.values}
+        if txts is not None and len(txts) == 2:
             for sv in sets:
                 if f"all({sv})" in txts and (txts - {f"all({sv})"}) <= {sv, f"bool({sv})", f"len({sv}) > 0", f"len({sv})"}:
                     verdict_ok = True
